@@ -29,7 +29,7 @@ if not ok:
     if not ok3:
         meta["verdict"] = "patch does not apply to current HEAD"; print(json.dumps(meta["verdict"])); sys.exit(1)
 step("apply patch", "git apply %s || git apply --3way %s" % (patch, patch), True)
-ok, out = step("suite with patch", "cargo test --workspace --offline 2>&1 | tail -40", True)
+ok, out = step("suite with patch", "cargo test --workspace --offline 2>&1 | grep -E 'test result|FAILED|error\\[|could not compile'", True)
 suite_ok = ok and "FAILED" not in out and "error" not in out.lower().replace("0 errors","")
 m = re.findall(r"test result: (\w+)\. (\d+) passed; (\d+) failed", out)
 meta["suite_with_patch"] = m
@@ -44,7 +44,7 @@ def run_demo():
     res = []
     for c in crates:
         for mo in mods:
-            cmd = "cargo test -p %s --offline --test it %s:: 2>&1 | tail -15" % (c, mo)
+            cmd = "cargo test -p %s %s --offline --test it %s:: 2>&1 | tail -15" % (c, "--features async-lock" if c == "eyeball" else "", mo)
             rc, out = sh(cmd, cwd=WT)
             mm = re.findall(r"test result: (\w+)\. (\d+) passed; (\d+) failed", out)
             res.append((c, mo, mm, "could not compile" in out))
